@@ -163,7 +163,9 @@ def check_run(ctx, c):
             ctx.fail('integration_rule_violated',
                      dict(run=brief, t=rec['t'], h=h, state=dae.x_name[i], q=float(q[i]), bound=float(bound[i]),
                           x0=float(x0[i]), x1=float(x1[i]), f0=float(f0[i]), f1=float(f1[i]), T=float(Tk[i]), T_held_by_solver=float(np.array(dae.Tf)[i])),
-                     sig=dict(sig0, first_step=rec['t'] == 0.0))
+                     sig=dict(sig0, first_step=rec['t'] == 0.0, accepted_by_chattering_rule=bool(rec.get('chatter'))))
+        if rec.get('chatter'):
+            ctx.count('steps_accepted_by_chattering_rule')
         worst = max(worst, float(np.max(np.abs(q[mask]) / bound[mask])) if mask.any() else 0.0)
         # algebraic constraints at the accepted point (solver-held g, one iterate behind)
         g = rec['g']
@@ -173,7 +175,7 @@ def check_run(ctx, c):
         if gv.any():
             i = int(np.argmax(np.where(gv, np.abs(g) / gb, 0)))
             ctx.fail('algebraic_constraint_violated', dict(run=brief, t=rec['t'], equation=dae.y_name[i], g=float(g[i]), bound=float(gb[i])),
-                     sig=sig0)
+                     sig=dict(sig0, accepted_by_chattering_rule=bool(rec.get('chatter'))))
         worst_g = max(worst_g, float(np.max(np.abs(g) / gb)))
         if cfg['fixt'] and h > cfg['tstep'] * (1 + 1e-12):
             ctx.fail('step_exceeds_fixed_step', dict(run=brief, t=rec['t'], h=h, tstep=cfg['tstep']), sig=sig0)
